@@ -5,6 +5,7 @@ import (
 	"encoding/binary"
 	"encoding/hex"
 	"fmt"
+	"reflect"
 	"testing"
 
 	"github.com/google/go-tdx-guest/abi"
@@ -20,9 +21,10 @@ func c09Oracle(b []byte) (key, oracle, detail string) {
 	gen.Eval()
 	ref, refErr := gen.RefParse(b)
 	var got any
+	in := append([]byte{}, b...) // the caller's buffer, which the caller goes on to re-use
 	v := gen.Call(func() error {
 		var err error
-		got, err = abi.QuoteToProto(b)
+		got, err = abi.QuoteToProto(in)
 		return err
 	})
 	if v.Panicked() {
@@ -60,6 +62,22 @@ func c09Oracle(b []byte) (key, oracle, detail string) {
 	}
 	if !bytes.Equal(back, b) {
 		return "roundtrip-bytes", "serialise(parse(b)) == b", firstDiff(back, b)
+	}
+	// the parsed quote is a value of its own: the caller overwrites its buffer, the quote still serialises to what was parsed
+	for i := range in {
+		in[i] ^= 0xa5
+	}
+	var again []byte
+	if v4 := gen.Call(func() error {
+		var err error
+		again, err = abi.QuoteToAbiBytes(m)
+		return err
+	}); !v4.Accepted() || !bytes.Equal(again, b) {
+		d := v4.String()
+		if v4.Accepted() {
+			d = firstDiff(again, b)
+		}
+		return "parsed-quote-shares-memory-with-input", "serialise(parse(b)) == b, also after the caller re-used its buffer", d
 	}
 	var hb, bb []byte
 	v3 := gen.Call(func() error {
@@ -288,6 +306,15 @@ func TestC09(t *testing.T) {
 		q := gen.RandomRefQuote(s, authLen, chainLen, extraLen)
 		m := q.ToProto()
 		want := q.Encode()
+		// in half of the cases every byte string of the message is a sub-slice of ONE buffer with spare capacity behind
+		// it (what a zero-copy decoder hands out): serialising must not write behind any field
+		var arena, arenaBefore []byte
+		if rapid.Bool().Draw(t, "fieldsShareOneBuffer") {
+			arena = arenaize(m, s)
+			arenaBefore = append([]byte{}, arena...)
+			gen.Class("msg:fields-share-one-buffer")
+		}
+		before := proto.Clone(m)
 		gen.Eval()
 		var got []byte
 		v := gen.Call(func() error {
@@ -308,6 +335,24 @@ func TestC09(t *testing.T) {
 			gen.Fail(t, gen.Violation{Key: "serialise-mismatch", Oracle: "refEncode(m) == abi.QuoteToAbiBytes(m)", Detail: firstDiff(got, want), Replay: rp})
 			return
 		}
+		if !proto.Equal(before, m) || !bytes.Equal(arena, arenaBefore) {
+			d := "the message differs from what it was before the call"
+			if !bytes.Equal(arena, arenaBefore) {
+				d = "the buffer holding the message's byte strings changed: " + firstDiff(arena, arenaBefore)
+			}
+			gen.Fail(t, gen.Violation{Key: "serialise-modifies-message", Oracle: "every well-formed quote message survives serialise-then-parse unchanged", Detail: d, Replay: rp})
+			return
+		}
+		// a second serialisation of the same message gives the same bytes
+		var got2 []byte
+		if v1 := gen.Call(func() error {
+			var err error
+			got2, err = abi.QuoteToAbiBytes(m)
+			return err
+		}); !v1.Accepted() || !bytes.Equal(got2, want) {
+			gen.Fail(t, gen.Violation{Key: "serialise-mismatch:second-call", Oracle: "refEncode(m) == abi.QuoteToAbiBytes(m), every time", Detail: firstDiff(got2, want), Replay: rp})
+			return
+		}
 		var back any
 		v2 := gen.Call(func() error {
 			var err error
@@ -326,6 +371,50 @@ func TestC09(t *testing.T) {
 		gen.Class(fmt.Sprintf("msg:auth>%d", bucket(authLen)))
 		gen.Sample("message", map[string]any{"authLen": authLen, "chainLen": chainLen, "extraLen": extraLen, "len": len(want)})
 	})
+}
+
+// arenaize re-homes every byte string of a message into one buffer, in field order, each as buf[off:off+len] so
+// that its capacity extends over everything that follows. It returns the buffer.
+func arenaize(m any, s *gen.Stream) []byte {
+	var fields []*[]byte
+	var walk func(v reflect.Value)
+	walk = func(v reflect.Value) {
+		switch v.Kind() {
+		case reflect.Ptr:
+			if !v.IsNil() {
+				walk(v.Elem())
+			}
+		case reflect.Struct:
+			for i := 0; i < v.NumField(); i++ {
+				if v.Type().Field(i).PkgPath == "" {
+					walk(v.Field(i))
+				}
+			}
+		case reflect.Slice:
+			if v.Type().Elem().Kind() == reflect.Uint8 {
+				if v.CanAddr() && v.Len() > 0 {
+					fields = append(fields, v.Addr().Interface().(*[]byte))
+				}
+				return
+			}
+			for i := 0; i < v.Len(); i++ {
+				walk(v.Index(i))
+			}
+		}
+	}
+	walk(reflect.ValueOf(m))
+	total := 0
+	for _, f := range fields {
+		total += len(*f)
+	}
+	buf := s.Bytes(total + 4096)
+	off := 0
+	for _, f := range fields {
+		n := copy(buf[off:], *f)
+		*f = buf[off : off+n]
+		off += n
+	}
+	return buf
 }
 
 func bucket(n int) int {
